@@ -206,8 +206,23 @@ def build(conn):
             return T.record(23, 0x0303, Wd.seal(ctype, 0x0303, pt, pad=pad))
 
         ccs = T.record(20, 0x0303, b"\x01")
+        hrr = conn.get("hrr")
+        if hrr:
+            # HelloRetryRequest: a ServerHello with the fixed random of RFC 8446 4.1.3 (supported_versions + the selected
+            # group), then the client's second ClientHello (same random); compatibility-mode CCS records on either side
+            HRR_RANDOM = bytes.fromhex("cf21ad74e59a6111be1d8c021e65b891c2a211167abb8c5e079e09e2c8a8339c")
+            hx = [T.ext(0x002b, b"\x03\x04"), T.ext(0x0033, struct.pack(">H", 0x0017))]
+            fh = [WRec("s", "hs", T.record(22, 0x0303, T.server_hello(T.TLS12, HRR_RANDOM, sid, conn["suite"], hx)))]
+            if hrr.get("ccs_s"):
+                fh.append(WRec("s", "ccs", ccs))
+            flights.append({"c": [], "s": fh})
+            f0 = []
+            if hrr.get("ccs_c"):
+                f0.append(WRec("c", "ccs", ccs))
+            f0.append(WRec("c", "hs", ch_rec))
+            flights.append({"c": f0, "s": []})
         f1 = [WRec("s", "hs", T.record(22, 0x0303, sh))]
-        if conn.get("ccs_s", True):
+        if conn.get("ccs_s", True) and not (hrr and hrr.get("ccs_s")):
             f1.append(WRec("s", "ccs", ccs))
         emsgs = []
         for i, (mt, ln) in enumerate(conn.get("enc_msgs", [[8, 10], [11, 700], [15, 100]])):
@@ -219,7 +234,7 @@ def build(conn):
             f1.append(WRec("s", "ehs", seal13(HW["s"], 22, b"".join(g), pad)))
         flights.append({"c": [], "s": f1})
         f2 = []
-        if conn.get("ccs_c", True):
+        if conn.get("ccs_c", True) and not (hrr and hrr.get("ccs_c")):
             f2.append(WRec("c", "ccs", ccs))
         cm = []
         for i, (mt, ln) in enumerate(conn.get("cli_enc_msgs", [])):
